@@ -135,6 +135,7 @@ def run_case(idx, rng, P, rep):
     flags = dict(multi=any(len(lk) >= 2 for lk in links), relink_then_update=False, pending=False)
     raised_last = set()      # (src index, pname) whose most recent assignment raised out of the setter
     murky = [set() for _ in range(ntg)]   # per target: source params a half-restored link may legitimately still watch
+    unspec = [set() for _ in range(ntg)]  # per target: parameters whose link state is unspecified (restore raised) until re-assigned
 
     def viol(key, msg):
         rep.violation(f'C08/{key}', msg, case=dict(desc, steps=steps), trace=trace[-16:])
@@ -146,6 +147,8 @@ def run_case(idx, rng, P, rep):
         for ti, t in enumerate(targets):
             for tp in ('x', 'y', 'z', 'l', 'd'):
                 got = getattr(t, tp)
+                if tp in unspec[ti]:
+                    continue
                 rep.count('mirror_checks')
                 if tp in links[ti]:
                     ev, kind, deps = links[ti][tp]
@@ -221,6 +224,7 @@ def run_case(idx, rng, P, rep):
             setattr(t, tp, ref)
             links[ti][tp] = (ev, kind, deps)
             plain[ti].pop(tp, None)
+            unspec[ti].discard(tp)
             flags['pending'] = True
             if len(links[ti]) >= 2:
                 flags['multi'] = True
@@ -238,6 +242,7 @@ def run_case(idx, rng, P, rep):
                 setattr(t, tp, v)
             links[ti].pop(tp, None)
             plain[ti][tp] = v
+            unspec[ti].discard(tp)
         elif c < 0.9:
             # update used as a context manager: previous values and links are restored on exit
             tp = rng.choice(['x', 'y', 'z'])
@@ -285,6 +290,9 @@ def run_case(idx, rng, P, rep):
             plain[ti].pop(tp, None)
             if not ok_exit:
                 murky[ti] |= (saved_link[2] if saved_link else set()) | (deps if use_ref else set())
+                unspec[ti].add(tp)
+            elif tp in unspec[ti]:
+                pass        # what was restored was itself unspecified
             elif saved_link is not None:
                 links[ti][tp] = saved_link
             elif had_plain:
